@@ -69,6 +69,7 @@ def register(name, fn):
 
 register('gen_quantity', verus_unit('gen_quantity', gen_verus.gen_quantity))
 register('gen_hasref', verus_unit('gen_hasref', gen_verus.gen_hasref))
+register('lemmas_m1_f64', verus_unit('lemmas_m1_f64', gen_verus.gen_m1_f64))
 
 
 def run_units(names, prop, tier, seed):
